@@ -22,7 +22,11 @@ int g_in_callback;                 /* 1 while the post-switch callback runs */
 int g_jumped;                      /* a set_context (no return) happened */
 
 /* unit hook: obligations that must hold at the instant the context is saved (defined by the unit, or left without a body) */
+#ifdef VERIF_HAS_ON_SAVE
 void verif_on_save(myth_context_t from);
+#else
+static inline void verif_on_save(myth_context_t from) { (void)from; }
+#endif
 static inline void verif_ctx_save(myth_context_t from) { verif_on_save(from); g_ctx_saved = from; }
 static inline void verif_count_switch(myth_context_t to) { g_switch_to = to; if (g_switch_count < 2) g_switch_count++; }
 /* the suspended thread is resumed arbitrarily later, on any worker: contract supplied by the unit
